@@ -62,6 +62,10 @@ COMMENTS = {
     # a message without fields whose one-line comment ends in a backslash (the closing quotes must not follow it on the same line)
     "empty_message_backslash": ((4, 3), "leading", " Asks which character separates path segments, e.g. / or \\\n"),
     # an enum declared inside a message, and one of its values
+    # a request message whose comment carries backslashes (it is quoted in the docstrings of every method that takes it, REST stubs included)
+    "request_backslash": ((4, 2), "leading", " Names a shelf; Windows users may write C:\\new\\table or a \\u escape here.\n"),
+    # the result type of a long-running operation: its comment is what the method's `Returns:` section quotes
+    "lro_result": ((4, 4), "leading", " Summary of a finished shelf reorganisation.\n"),
     "nested_enum": ((4, 0, 4, 0), "leading", " How the books on the shelf are bound.\n"),
     "nested_enum_value": ((4, 0, 4, 0, 2, 1), "trailing", " Sewn and glued hard covers.\n"),
 }
@@ -94,6 +98,8 @@ def scenarios():
     G.add_message(fd, "Answer", [G.F("text", 1, T.TYPE_STRING)])
     G.add_message(fd, "Req", [G.F("name", 1, T.TYPE_STRING)])
     G.add_message(fd, "Ping", [])
+    G.add_message(fd, "Reorg", [G.F("moved", 1, T.TYPE_INT32)])
+    G.add_message(fd, "ReorgMeta", [G.F("pct", 1, T.TYPE_INT32)])
     bind = fd.message_type[0].enum_type.add(name="Binding")
     for i, nm in enumerate(("BINDING_UNSPECIFIED", "HARD", "SOFT")):
         bind.value.add(name=nm, number=i)
@@ -103,6 +109,7 @@ def scenarios():
     svc = G.add_service(fd, "Lab")
     G.add_method(svc, "GetShelf", ".acme.lab.v1.Req", ".acme.lab.v1.Shelf", http=("get", "/v1/{name=shelves/*}"))
     G.add_method(svc, "ListShelves", ".acme.lab.v1.Req", ".acme.lab.v1.Answer", http=("get", "/v1/{name=lists/*}"))
+    G.add_method(svc, "Reorganise", ".acme.lab.v1.Req", ".google.longrunning.Operation", http=("post", "/v1/{name=shelves/*}:reorganise"), body="*", lro=("Reorg", "ReorgMeta"))
     # a request type of ANOTHER package (not generated): its comment still reaches the docstring of the method that takes it
     shared = G.new_file("acme/shared/v1/shared.proto", "acme.shared.v1")
     G.add_message(shared, "SharedReq", [G.F("name", 1, T.TYPE_STRING)])
@@ -120,7 +127,7 @@ def scenarios():
             loc.leading_detached_comments.append(text)
     failures, cases = [], 0
     try:
-        api, res = G.generate([shared, fd], "autogen-snippets=false", to_generate=["acme/lab/v1/lab.proto"])
+        api, res = G.generate([shared, fd], "autogen-snippets=false,transport=grpc+rest", to_generate=["acme/lab/v1/lab.proto"])
     except Exception as e:      # noqa
         return {"cases": 1, "failures": [{"what": "generation failed", "error": repr(e)[:300]}]}
     by = {f.name: f.content for f in res.file}
@@ -150,7 +157,9 @@ def scenarios():
              ("message", "acme/lab_v1/types/lab.py", "Shelf", None), ("field", "acme/lab_v1/types/lab.py", "Shelf", None), ("field_detached", "acme/lab_v1/types/lab.py", "Shelf", None),
              ("enum", "acme/lab_v1/types/lab.py", "Genre", None), ("enum_value", "acme/lab_v1/types/lab.py", "Genre", None), ("message_quote", "acme/lab_v1/types/lab.py", "Answer", None),
              ("empty_message_backslash", "acme/lab_v1/types/lab.py", "Ping", None), ("nested_enum", "acme/lab_v1/types/lab.py", "Binding", None),
-             ("nested_enum_value", "acme/lab_v1/types/lab.py", "Binding", None)]
+             ("nested_enum_value", "acme/lab_v1/types/lab.py", "Binding", None),
+             ("request_backslash", "acme/lab_v1/services/lab/client.py", "LabClient", "get_shelf"), ("request_backslash", "acme/lab_v1/services/lab/transports/rest.py", "_GetShelf", "__call__"),
+             ("lro_result", "acme/lab_v1/services/lab/client.py", "LabClient", "reorganise"), ("lro_result", "acme/lab_v1/services/lab/async_client.py", "LabAsyncClient", "reorganise")]
     for key, fname, cname, meth in sites:
         cases += 1
         doc = cls_doc(fname, cname, meth)
